@@ -165,12 +165,16 @@ class Interp:
             self.block(self.f['body'])
         except Ret as r:
             return r.v
+        if self.f.get('ret') == 'void':
+            return None
         raise Unmodelled('%s: falls off the end' % self.f['name'])
 
     def call_lambda(self, lid, argvals):
         lam = self.f.get('lambdas', [])[lid]
         names = []
-        for n in __import__('facts').walk(lam['body']):
+        if isinstance(lam.get('params'), list) and len(lam['params']) == len(argvals):
+            names = list(lam['params'])
+        for n in ([] if names else __import__('facts').walk(lam['body'])):
             if n.get('k') == 'ref' and n.get('d') == 'param' and n['n'] not in names and n['n'] not in [p['n'] for p in self.f['params']]:
                 names.append(n['n'])
         if len(names) != len(argvals):
@@ -193,6 +197,8 @@ class Interp:
             self.block(self.f['body'])
         except Ret as r:
             return r.v
+        if self.f.get('ret') == 'void':
+            return None
         raise Unmodelled('%s: falls off the end' % self.f['name'])
 
     # ---------- statements
@@ -223,7 +229,7 @@ class Interp:
             elif st.get('else') is not None:
                 self.block(st['else'])
         elif k == 'ret':
-            raise Ret(self.val(st['e']))
+            raise Ret(self.val(st['e']) if st.get('e') is not None else None)
         elif k == 'decl':
             init = see_through(st.get('init')) if st.get('init') is not None else None
             if init is not None and '&' in (st.get('t') or '') and isinstance(init, dict) and init.get('k') == 'call' and init.get('op') == '[]' and init.get('recv') is not None:
@@ -507,6 +513,8 @@ class Interp:
                 return base[i]
             if isinstance(base, tuple) and base and base[0] == 'pterm' and isinstance(i, int) and 0 <= i < len(base) - 1:
                 return base[i + 1]
+            if isinstance(base, tuple) and base and base[0] == 'clause' and isinstance(i, int) and 0 <= i < len(base[1]):
+                return base[1][i]
             if base == ('symmap',):
                 return ('sym', self.default_op)
             if isinstance(base, dict):
@@ -650,6 +658,14 @@ class Interp:
             return None
         if m in ('printf', 'capacity'):
             return None
+        if callee(e).startswith('std::ranges::__') and callee(e).endswith('_of_fn::operator()') and len(args) == 2:
+            seq = self.val(args[0])
+            lam = see_through(args[1])
+            if isinstance(seq, list) and isinstance(lam, dict) and lam.get('k') == 'lambda':
+                res_ = [self.call_lambda(lam['id'], [x]) for x in seq]
+                kind = callee(e).split('__')[1].split('_of_fn')[0]
+                return {'all': all, 'any': any, 'none': lambda r_: not any(r_)}[kind](res_)
+            raise Unmodelled('%s at line %s' % (callee(e), e.get('ln')))
         if callee(e) in ('std::all_of', 'std::any_of', 'std::none_of'):
             it0 = self.val(args[0])
             lam = see_through(args[2])
@@ -678,7 +694,7 @@ class Interp:
             if opn == 'not' and len(a) == 1:
                 return neg(a[0])            # the one canonical negation of a term
             return (opn,) + tuple(a)
-        if m in self.ctor_eval and len(args) >= 1:
+        if self.ctor_eval and m in self.ctor_eval and len(args) >= 1:
             vals = [self.val(x) for x in args]
             if len(vals) == 1 and isinstance(vals[0], list):
                 vals = vals[0]
